@@ -719,6 +719,19 @@ def inject_faults(rng, M, limit):
 
     # IMPLICIT written on an untagged CHOICE is not a fault of the catalogue: normalise
     out = [(k, d, fix_modes(m)) for k, d, m in out]
+
+    # --- rejection reasons outside the catalogue (correspondence only, not judged by the P leg)
+    cands = [(ti, path) for ti, path, node in all_nodes(M)
+             if node[1] is not None and orc.untagged_choice(with_tag(node, None))
+             and not (path and path[-1][0] == 'e')]          # SEQUENCE OF elements are never tag-fixed
+    rng.shuffle(cands)
+    for ti, path in cands[:2]:
+        out.append(('other:implicit-choice', M[1][ti][0],
+                    mod_replace(M, ti, path, lambda t: with_tag(t, (t[1][0], t[1][1], 'i')))))
+    if len(M[1]) >= 2 and rng.random() < 0.5:
+        i, j = rng.sample(range(len(M[1])), 2)
+        types = list(M[1]); types[j] = (types[i][0], types[j][1])
+        out.append(('other:dup-type', types[i][0], (M[0], types)))
     if len(out) > limit:
         # keep every fault kind represented
         rng.shuffle(out)
@@ -840,8 +853,8 @@ def run(ctx, only_modules=None):
                        'reference); distinct = distinct module texts; non-trivial = asn1c reached the semantic checker '
                        '(no syntax error) and the oracle decided the expected verdict')
     rng = ctx.rng
-    nbase = int(os.environ.get('VERIF_C11_NBASE', 110 if ctx.quick else 1500))
-    per = 14 if ctx.quick else 60
+    nbase = int(os.environ.get('VERIF_C11_NBASE', 300 if ctx.quick else 2000))
+    per = 14 if ctx.quick else 30
     cases = []     # dict(kind, desc, M)
     if only_modules is not None:
         cases = only_modules
@@ -899,7 +912,7 @@ def run(ctx, only_modules=None):
 
     # ---- K leg
     kstat = {'lines': 0, 'disagreements': 0, 'c_crashes': 0, 'dump_compared': 0, 'dump_disagreements': 0,
-             'model_loop': 0, 'in_dom': 0}
+             'model_loop': 0, 'in_dom': 0, 'wf': 0, 'fault_free_in_dom_and_wf': 0, 'fault_free': 0}
     kdis = []
     for c in cases:
         r = c['res']
@@ -907,6 +920,12 @@ def run(ctx, only_modules=None):
         mv = c['model'].split()[0] if c['model'] else '?'
         if ' dom=1' in c['model']:
             kstat['in_dom'] += 1
+        if ' wf=1' in c['model']:
+            kstat['wf'] += 1
+        if c['kind'] == 'fault-free':
+            kstat['fault_free'] += 1
+            if ' dom=1' in c['model'] and ' wf=1' in c['model']:
+                kstat['fault_free_in_dom_and_wf'] += 1
         if r['crash']:
             kstat['c_crashes'] += 1
         if mv == 'loop':
@@ -939,7 +958,7 @@ def run(ctx, only_modules=None):
                                          {'n': 0, 'accept': 0, 'reject': 0, 'grey': 0})
         st['n'] += 1
         want = c.get('want', c['oracle'])
-        if c['kind'].startswith('quirk') or want is None:
+        if c['kind'].startswith('quirk') or c['kind'].startswith('other:') or want is None:
             pstat['grey'] += 1; st['grey'] += 1
             continue
         st[want] += 1
@@ -968,7 +987,7 @@ def run(ctx, only_modules=None):
     for c, why in pfail:
         if c['kind'].startswith('witness:'):
             wid = c['kind'].split(':', 1)[1]
-            f = ctx.match_finding(lambda f: f.get('witness', {}).get('id') == wid)
+            f = ctx.match_finding(lambda f: wid in finding_ids(f))
             if not f:
                 # a documented defect whose KNOWN_FINDINGS entry has not been committed yet
                 pstat['proposed_findings'].append({'id': wid, 'why': why})
@@ -976,11 +995,11 @@ def run(ctx, only_modules=None):
             continue
         f = None
         if is_enum_numbering_case(c['M']):
-            f = ctx.match_finding(lambda f: f.get('witness', {}).get('id', '').startswith('enum-numbering'))
+            f = ctx.match_finding(lambda f: any(i.startswith('enum-numbering') for i in finding_ids(f)))
         elif c['cyclic']:
-            f = ctx.match_finding(lambda f: f.get('witness', {}).get('id') == 'recursive-untagged-choice-crash')
+            f = ctx.match_finding(lambda f: 'recursive-untagged-choice-crash' in finding_ids(f))
         elif 'accepted' in why and is_markcut_case(c['M']):
-            f = ctx.match_finding(lambda f: f.get('witness', {}).get('id') == 'typeref-then-choice-ref-missed')
+            f = ctx.match_finding(lambda f: 'typeref-then-choice-ref-missed' in finding_ids(f))
         if f:
             continue
         ctx.violation('C11 predicate fails on asn1c: %s [%s %s]' % (why, c['kind'], c['desc']),
@@ -1008,7 +1027,7 @@ def run(ctx, only_modules=None):
         dist['asn1c_verdict'][c['res']['verdict']] = dist['asn1c_verdict'].get(c['res']['verdict'], 0) + 1
         dist['oracle'][str(c['oracle'])] = dist['oracle'].get(str(c['oracle']), 0) + 1
         for t in c['model'].split()[1:]:
-            if not t.startswith('dom='):
+            if '=' not in t:
                 dist['model_reasons'][t] = dist['model_reasons'].get(t, 0) + 1
     ctx.cov['distribution'].update(dist)
     for j in sorted(set([0, len(cases) // 3, len(cases) // 2, len(cases) - 1])):
@@ -1024,6 +1043,11 @@ def run(ctx, only_modules=None):
     ]
     ctx.log('K: %s' % kstat)
     ctx.log('P: cases=%d failures=%d grey=%d' % (pstat['cases'], pstat['failures'], pstat['grey']))
+
+
+def finding_ids(f):
+    w = f.get('witness', {})
+    return set([w['id']] if 'id' in w else []) | set(w.get('ids', []))
 
 
 def is_markcut_case(M):
